@@ -10,7 +10,7 @@ RULE = ("seeded scenarios on one Capacities or Resources supply with 1-2 named i
         "before every activation. Non-trivial = a borrower had to wait or a fault struck inside "
         "acquire/hold/release; distinct = distinct sequence of (actor, resource event, amounts) "
         "plus fault position.")
-BUDGET = {"quick": {"cases": 400, "wall_s": 100, "chunk": 2, "per_group": 25},
+BUDGET = {"quick": {"cases": 400, "wall_s": 240, "chunk": 2, "per_group": 25},
           "thorough": {"cases": 3500, "wall_s": 1500, "chunk": 5, "per_group": 400}}
 ASSUMPTIONS = ["a block torn down by a signal may take until the end of the current time step "
                "to have returned its resources (the forceful-close path schedules the return)"]
